@@ -372,8 +372,27 @@ class Gen:
         return lines
 
 
-def gen_doc(rng, hostile=0.5, eval_atoms=0.05, max_el=25, root=None, features=None, root_attrs=True):
-    """Returns (document text, sorted feature list)."""
+def gen_misc(rng, g, n, where):
+    """n 'misc' items (comments, processing instructions, white space) as allowed before / after the root element."""
+    out = []
+    for _ in range(n):
+        k = rng.random()
+        if k < 0.6:
+            out.append("<!-- %s -->" % rng.choice(["licence header", "Copyright (c) someone", "generated file", "line %d" % rng.randint(1, 99),
+                                                   "a & b < c", "{{1 + 1}} $v", "é ü", ""]))
+            g.feats.add("%s.comment" % where)
+        elif k < 0.85:
+            out.append("<?%s %s?>" % (rng.choice(["xml-stylesheet", "pi", "php"]), rng.choice(['href="a.css" type="text/css"', "x > y", "a=1", ""])))
+            g.feats.add("%s.pi" % where)
+        else:
+            out.append(rng.choice(["", " ", "\n"]))
+        out.append(rng.choice(["\n", "\n", "", "\n\n"]))
+    return "".join(out)
+
+
+def gen_doc(rng, hostile=0.5, eval_atoms=0.05, max_el=25, root=None, features=None, root_attrs=True, prolog=0.0):
+    """Returns (document text, sorted feature list).  prolog: probability of a longer document prologue / epilogue
+    (several comments, processing instructions, a DOCTYPE) around the root element."""
     g = Gen(rng, hostile=hostile, eval_atoms=eval_atoms, max_el=max_el, features=features)
     if root is None:
         root = rng.random() < 0.8
@@ -383,13 +402,24 @@ def gen_doc(rng, hostile=0.5, eval_atoms=0.05, max_el=25, root=None, features=No
     if rng.random() < 0.15:
         pre = '<?xml version="1.0" encoding="UTF-8"?>\n'
         g.feats.add("prolog.xmldecl")
+    post = ""
+    if root and prolog and rng.random() < prolog:
+        n = rng.choice([1, 2, 3, 4, 5, 6, 8, 12, 20])
+        pre += gen_misc(rng, g, n, "prolog")
+        g.feats.add("prolog.items>=4" if n >= 4 else "prolog.items<4")
+        if rng.random() < 0.25:
+            pre += rng.choice(['<!DOCTYPE svg>\n', '<!DOCTYPE svg PUBLIC "-//W3C//DTD SVG 1.1//EN" "http://www.w3.org/Graphics/SVG/1.1/DTD/svg11.dtd">\n'])
+            g.feats.add("prolog.doctype")
+            pre += gen_misc(rng, g, rng.randint(0, 3), "prolog")
+        if rng.random() < 0.4:
+            post = gen_misc(rng, g, rng.randint(1, 4), "epilog")
     if root:
         attrs = ""
         if root_attrs and rng.random() < 0.3:
             attrs = " " + rng.choice(['width="100"', 'height="50mm"', 'viewBox="0 0 50 50"', 'width="10cm" height="5cm"',
                                       'id="root"', 'class="big"', 'style="background: white"', 'data-x="&amp;"'])
             g.feats.add("root.attrs")
-        text = pre + "<svg%s>\n" % attrs + "\n".join(lines) + "\n</svg>\n"
+        text = pre + "<svg%s>\n" % attrs + "\n".join(lines) + "\n</svg>\n" + post
         g.feats.add("root.svg")
     else:
         text = pre + "\n".join(lines) + "\n"
